@@ -63,8 +63,11 @@ def run(ctx):
                 sizes = [[ctx.rng.choice(SIZES) for _ in range(k_msgs)] for _ in range(nt)]
                 # every second asyncio run writes to a socket that takes at most 1500 / 700 bytes per send() call
                 cap = (1500, 700)[(s // 2) % 2] if (reactor == "asyncio" and s % 2 == 1) else 0
+                # in every other configuration pusher 1 pushes from the reactor's loop thread
+                loop_pusher = 1 if (nt + s) % 2 == 0 else 0
                 try:
-                    ev = pq.run_reactor(reactor, nt, k_msgs, sizes, ctx.seed * 1000 + s, timeout=20 if ctx.quick else 60, cap=cap)
+                    ev = pq.run_reactor(reactor, nt, k_msgs, sizes, ctx.seed * 1000 + s, timeout=20 if ctx.quick else 60, cap=cap,
+                                        loop_pusher=loop_pusher)
                 except RuntimeError as ex:
                     if cap:
                         # with short writes a broken writer can lose or damage bytes so badly that the stream cannot be
@@ -78,7 +81,7 @@ def run(ctx):
                 for e in ev:
                     if e["e"] == "End":
                         e["pushed"] = e["pushed"] + [0] * (MAXT - len(e["pushed"]))
-                runs.append({"reactor": reactor, "threads": nt, "seed": s, "events": ev, "cap": cap})
+                runs.append({"reactor": reactor, "threads": nt, "seed": s, "events": ev, "cap": cap, "loop_pusher": loop_pusher})
     traces = [r["events"] for r in runs]
     good = len(traces)
     # binding self-test: swap two chunks of different messages / drop a chunk -> must be rejected
